@@ -30,6 +30,8 @@ pub enum AOp {
     TrackForget,
     AllocDealloc,
     AllocLeak,
+    TrackDropInUnwind,
+    AllocDeallocInUnwind,
 }
 
 #[derive(Clone, Debug, PartialEq, Eq, Hash, Serialize, Deserialize)]
@@ -161,12 +163,12 @@ fn step_obs(p: &AProg, s: &St, t: usize, flag_seen: Option<u8>) -> Option<(St, O
                 }
             }
         }
-        AOp::TrackDrop => ns.track_live[t] = false,
+        AOp::TrackDrop | AOp::TrackDropInUnwind => ns.track_live[t] = false,
         AOp::TrackForget => {
             ns.track_live[t] = false;
             ns.leak_alloc = true;
         }
-        AOp::AllocDealloc => {}
+        AOp::AllocDealloc | AOp::AllocDeallocInUnwind => {}
         AOp::AllocLeak => ns.leak_alloc = true,
     }
     if let Some(r) = res {
@@ -325,16 +327,22 @@ pub fn gen(rng: &mut Rng, leaks: bool, panic_in_drop: bool, tier: u8) -> AProg {
                         if !track {
                             continue;
                         }
-                        if rng.chance(1, 2) {
-                            TrackDrop
-                        } else {
-                            TrackForget
+                        match rng.below(5) {
+                            0 | 1 => TrackDrop,
+                            2 => TrackDropInUnwind,
+                            _ => TrackForget,
                         }
                     }
-                    14 => AllocDealloc,
+                    14 => {
+                        if rng.chance(1, 4) {
+                            AllocDeallocInUnwind
+                        } else {
+                            AllocDealloc
+                        }
+                    }
                     _ => AllocLeak,
                 };
-                let needs_handle = !matches!(op, SetFlag | TrackDrop | TrackForget | AllocDealloc | AllocLeak);
+                let needs_handle = !matches!(op, SetFlag | TrackDrop | TrackDropInUnwind | TrackForget | AllocDealloc | AllocDeallocInUnwind | AllocLeak);
                 if needs_handle && held == 0 {
                     continue;
                 }
@@ -349,7 +357,7 @@ pub fn gen(rng: &mut Rng, leaks: bool, panic_in_drop: bool, tier: u8) -> AProg {
                     }
                     Inc => incs += 1,
                     Dec => incs -= 1,
-                    TrackDrop | TrackForget => track = false,
+                    TrackDrop | TrackDropInUnwind | TrackForget => track = false,
                     _ => {}
                 }
                 ops.push(op);
@@ -469,7 +477,17 @@ fn exec(p: &AProg, t: usize, first: loom::sync::Arc<Payload>, track: loom::alloc
                 drop(h);
             }
             AOp::Count => res = Arc::strong_count(hs.last().unwrap()) as i64,
-            AOp::GetMut => res = Arc::get_mut(hs.last_mut().unwrap()).is_some() as i64,
+            AOp::GetMut => {
+                // a successful get_mut hands out `&mut`: write through it (the earlier owners' reads — every Drop reads the
+                // payload first — must happen-before it)
+                res = match Arc::get_mut(hs.last_mut().unwrap()) {
+                    Some(p) => {
+                        p.cell.with_mut(|c| unsafe { std::ptr::write_volatile(c, 3) });
+                        1
+                    }
+                    None => 0,
+                };
+            }
             AOp::TryUnwrap => {
                 let h = hs.pop().unwrap();
                 match Arc::try_unwrap(h) {
@@ -520,6 +538,28 @@ fn exec(p: &AProg, t: usize, first: loom::sync::Arc<Payload>, track: loom::alloc
                 hs.last().unwrap().cell.with(|p| unsafe { std::ptr::read_volatile(p) });
             }
             AOp::TrackDrop => drop(track.take()),
+            AOp::TrackDropInUnwind => {
+                // released by a destructor that runs while the thread unwinds from a panic the program itself catches
+                let t = track.take();
+                let _ = std::panic::catch_unwind(std::panic::AssertUnwindSafe(move || {
+                    let _owned = t;
+                    panic!("{}caught-by-the-program", USER_PANIC_PREFIX);
+                }));
+            }
+            AOp::AllocDeallocInUnwind => {
+                struct Block(*mut u8, std::alloc::Layout);
+                impl Drop for Block {
+                    fn drop(&mut self) {
+                        unsafe { loom::alloc::dealloc(self.0, self.1) }
+                    }
+                }
+                let l = std::alloc::Layout::from_size_align(16, 8).unwrap();
+                let b = Block(unsafe { loom::alloc::alloc(l) }, l);
+                let _ = std::panic::catch_unwind(std::panic::AssertUnwindSafe(move || {
+                    let _owned = b;
+                    panic!("{}caught-by-the-program", USER_PANIC_PREFIX);
+                }));
+            }
             AOp::TrackForget => std::mem::forget(track.take()),
             AOp::AllocDealloc => unsafe {
                 let l = std::alloc::Layout::from_size_align(16, 8).unwrap();
@@ -662,6 +702,14 @@ fn core(tier: u8) -> &'static Vec<AProg> {
         v.push(ap(vec![vec![RawRound, Count], vec![RawRound, Drop]]));
         v.push(ap(vec![vec![TrackForget], vec![TrackDrop]]));
         v.push(ap(vec![vec![AllocLeak], vec![AllocDealloc]]));
+        // released while the thread unwinds from a panic the program catches itself: not a leak
+        v.push(ap(vec![vec![TrackDropInUnwind], vec![TrackDrop]]));
+        v.push(ap(vec![vec![AllocDeallocInUnwind, Drop], vec![TrackDropInUnwind, Drop]]));
+        v.push(ap(vec![vec![TrackDropInUnwind, Count], vec![TrackForget, Drop]]));
+        // get_mut succeeds after the other owners dropped their handles in other threads, without any join
+        v.push(ap(vec![vec![GetMut, GetMut, Drop], vec![Drop]]));
+        v.push(ap(vec![vec![GetMut, Drop], vec![Drop], vec![Drop]]));
+        v.push(ap(vec![vec![Count, GetMut, Drop], vec![ReadPayload, Drop]]));
         v.push(AProg { threads: vec![vec![Drop], vec![Drop]], panic_in_drop: true });
         v.push(AProg { threads: vec![vec![Count], vec![Clone, Drop]], panic_in_drop: true });
         v
